@@ -93,6 +93,13 @@ type runner struct {
 	scs  []kyber.Scalar
 	pv   []vec
 	sv   []*big.Int
+	// values recorded at start-up, before any mutating call under test: group constants obtained
+	// through the API and objects that are kept alive and must never change afterwards
+	constEnc  map[string]string
+	sentinels map[string]kyber.Point
+	sentEnc   map[string]string
+	s0        *big.Int
+	reported  map[string]bool
 }
 
 func (r *runner) mod(x *big.Int) *big.Int { return new(big.Int).Mod(x, r.q) }
@@ -119,16 +126,16 @@ func (r *runner) lincomb(v vec) string {
 		if v[i].Sign() == 0 {
 			continue
 		}
-		t := im.G.Point().Mul(im.NewScalar(v[i]), im.FreshPoint(r.penc[i]))
+		t := im.NewPoint().Mul(im.NewScalar(v[i]), im.FreshPoint(r.penc[i]))
 		if acc == nil {
 			acc = t
 		} else {
-			acc = im.G.Point().Add(acc, t)
+			acc = im.NewPoint().Add(acc, t)
 		}
 	}
 	if acc == nil {
 		// identity: g - g on fresh objects (Null itself is under test)
-		acc = im.G.Point().Sub(im.FreshPoint(r.penc[0]), im.FreshPoint(r.penc[0]))
+		acc = im.NewPoint().Sub(im.FreshPoint(r.penc[0]), im.FreshPoint(r.penc[0]))
 	}
 	e := hg.Enc(acc)
 	r.memo[k] = e
@@ -145,14 +152,83 @@ func newRunner(im *hg.Impl, rng *vh.Rng, rep *vh.Report) *runner {
 	r.seed[1] = rng.Bytes(16)
 	r.penc[0] = hg.Enc(im.Gen())
 	if im.HasPick {
-		r.penc[1] = hg.Enc(im.G.Point().Pick(vh.NewSeqStream(r.seed[0])))
+		r.penc[1] = hg.Enc(im.NewPoint().Pick(vh.NewSeqStream(r.seed[0])))
 	}
 	if im.HasEmbed {
-		n := im.G.Point().EmbedLen()
+		n := im.NewPoint().EmbedLen()
 		r.edat = rng.Bytes(rng.Intn(n + 1))
-		r.penc[2] = hg.Enc(im.G.Point().Embed(r.edat, vh.NewSeqStream(r.seed[1])))
+		r.penc[2] = hg.Enc(im.NewPoint().Embed(r.edat, vh.NewSeqStream(r.seed[1])))
 	}
+	r.s0 = new(big.Int).Add(rng.BigBelow(new(big.Int).Sub(r.q, big.NewInt(2))), big.NewInt(2))
+	r.reported = map[string]bool{}
+	r.sentinels = map[string]kyber.Point{"Gen": im.Gen(), "Null()": im.NewPoint().Null(),
+		"Set(Gen)": im.NewPoint().Set(im.Gen()), "Mul(s0,Gen)": im.NewPoint().Mul(im.NewScalar(r.s0), im.Gen())}
+	if im.HasBase {
+		b := im.NewPoint().Base()
+		r.sentinels["Base()"] = b
+		r.sentinels["Base().Clone()"] = im.NewPoint().Base().Clone()
+		r.sentinels["Neg(Base())"] = im.NewPoint().Neg(b)
+	}
+	if im.HasMulBase {
+		r.sentinels["Mul(s0,nil)"] = im.NewPoint().Mul(im.NewScalar(r.s0), nil)
+	}
+	r.sentEnc = map[string]string{}
+	for k, p := range r.sentinels {
+		r.sentEnc[k] = hg.Enc(p)
+	}
+	r.constEnc = r.constants(true)
 	return r
+}
+
+// constants recomputes, through the API on fresh receivers, the values that depend only on the group
+func (r *runner) constants(full bool) map[string]string {
+	im := r.im
+	c := map[string]string{}
+	c["Null()"] = hg.Enc(im.NewPoint().Null())
+	c["Gen"] = hg.Enc(im.Gen())
+	if im.HasBase {
+		c["Base()"] = hg.Enc(im.NewPoint().Base())
+	}
+	c["order"] = im.G.Scalar().GroupOrder().Int.String()
+	c["Scalar.One()"] = hg.ScalarVal(im.G.Scalar().One()).String()
+	c["Scalar.Zero()"] = hg.ScalarVal(im.G.Scalar().Zero()).String()
+	c["Scalar.SetInt64(-1)"] = hg.ScalarVal(im.G.Scalar().SetInt64(-1)).String()
+	if full {
+		if im.HasMulBase {
+			c["Mul(s0,nil)"] = hg.Enc(im.NewPoint().Mul(im.NewScalar(r.s0), nil))
+		}
+		c["Mul(s0,Gen)"] = hg.Enc(im.NewPoint().Mul(im.NewScalar(r.s0), im.Gen()))
+	}
+	return c
+}
+
+// checkConstants: after a mutating call, every group constant and every object created at
+// start-up must still have the value recorded at start-up (a receiver that shares storage with a
+// constant or with an earlier result corrupts it when it is written in place)
+func (r *runner) checkConstants(after string, full bool) {
+	pan, msg := vh.Try(func() {
+		now := r.constants(full)
+		for k, v := range now {
+			if v != r.constEnc[k] && !r.reported["c:"+k] {
+				r.reported["c:"+k] = true
+				r.rep.Fail(r.im.Name+"/group-constant-changed:"+k, "a value that depends only on the group differs from the one recorded at start-up",
+					map[string]interface{}{"impl": r.im.Name, "constant": k, "first_seen_after": after,
+						"at_startup": vh.Hex([]byte(r.constEnc[k])), "now": vh.Hex([]byte(v))})
+			}
+		}
+		for k, p := range r.sentinels {
+			if e := hg.Enc(p); e != r.sentEnc[k] && !r.reported["s:"+k] {
+				r.reported["s:"+k] = true
+				r.rep.Fail(r.im.Name+"/earlier-result-changed:"+k, "an object created at start-up and never used as a receiver since changed its value",
+					map[string]interface{}{"impl": r.im.Name, "object": k, "first_seen_after": after,
+						"at_startup": vh.Hex([]byte(r.sentEnc[k])), "now": vh.Hex([]byte(e))})
+			}
+		}
+	})
+	if pan && !r.reported["panic"] {
+		r.reported["panic"] = true
+		r.rep.Fail(r.im.Name+"/group-constant-panic", msg, map[string]interface{}{"after": after})
+	}
 }
 
 func (r *runner) initPool() []*big.Int {
@@ -440,11 +516,11 @@ func (r *runner) fill(c *call) bool {
 	case sSetBytes:
 		c.data = r.rng.Bytes(r.rng.Intn(40))
 	case sDiv:
-		if r.sv[c.env[2]-np].Sign() == 0 {
+		if new(big.Int).ModInverse(r.sv[c.env[2]-np], r.q) == nil {
 			return false
 		}
 	case sInv:
-		if r.sv[c.env[1]-np].Sign() == 0 {
+		if new(big.Int).ModInverse(r.sv[c.env[1]-np], r.q) == nil {
 			return false
 		}
 	}
@@ -494,7 +570,13 @@ func (r *runner) step(c *call) (obs []*big.Int, ok bool) {
 		r.rep.Fail(name+"/panic["+pat+"]", "panic: "+msg, replay)
 		return nil, false
 	}
+	if im.Prep != nil { // Clone does not carry the opt-in flag: the program switches it on again
+		for _, p := range r.pts {
+			im.Prep(p)
+		}
+	}
 	after := r.snapshot()
+	r.checkConstants(name+"["+pat+"]", false)
 	replay["after"] = hexAll(after)
 	replay["returned"] = vh.Hex([]byte(ret))
 	replay["fresh_result"] = vh.Hex([]byte(freshRecv))
@@ -560,7 +642,11 @@ func (r *runner) runProgram(id int, gen func(k int) *call, items *[]string) {
 		observed = append(observed, vh.CoqList(os))
 		desc = append(desc, fmt.Sprintf("%s%v", mname[c.m], c.env))
 	}
-	if len(calls) == 0 {
+	r.checkConstants("program "+strings.Join(desc, ";"), true)
+	if len(calls) > 0 && r.im.OracleOnly {
+		r.rep.Count(r.im.Name+":"+strings.Join(desc, ";"), true)
+	}
+	if len(calls) == 0 || r.im.OracleOnly {
 		return
 	}
 	var is []string
@@ -602,7 +688,7 @@ func (r *runner) cloneIndependence() {
 		f    func(p kyber.Point)
 	}
 	other := func() kyber.Point {
-		return im.G.Point().Mul(im.NewScalar(r.rng.EdgeScalar(r.q)), im.Gen())
+		return im.NewPoint().Mul(im.NewScalar(r.rng.EdgeScalar(r.q)), im.Gen())
 	}
 	muts := []mut{
 		{"Null", func(p kyber.Point) { p.Null() }},
@@ -626,7 +712,12 @@ func (r *runner) cloneIndependence() {
 		func() kyber.Point { return other() },
 		func() kyber.Point { return im.FreshPoint(r.lincomb(vec{big.NewInt(1), new(big.Int), new(big.Int)})) },
 		func() kyber.Point { return im.FreshPoint(r.lincomb(zvec())) },
-		func() kyber.Point { p := other(); return im.G.Point().Add(p, other()) }, // non-normalised representation
+		func() kyber.Point { p := other(); return im.NewPoint().Add(p, other()) }, // non-normalised representation
+		func() kyber.Point { return im.NewPoint().Null() },                        // values obtained from the group itself
+		func() kyber.Point { return im.Gen() },
+	}
+	if im.HasMulBase {
+		starts = append(starts, func() kyber.Point { return im.NewPoint().Mul(im.NewScalar(big.NewInt(5)), nil) })
 	}
 	for _, how := range []string{"Clone", "Set"} {
 		for si, st := range starts {
@@ -639,7 +730,7 @@ func (r *runner) cloneIndependence() {
 						if how == "Clone" {
 							c = p.Clone()
 						} else {
-							c = im.G.Point().Set(p)
+							c = im.NewPoint().Set(p)
 						}
 						want := hg.Enc(p)
 						if hg.Enc(c) != want {
@@ -658,6 +749,7 @@ func (r *runner) cloneIndependence() {
 							}
 						}
 					})
+					r.checkConstants(how+" then "+mu.name, false)
 					if pan {
 						r.rep.Fail(im.Name+"."+how+"/panic:"+mu.name, msg, map[string]interface{}{"start": si})
 					} else if key != "" {
@@ -737,16 +829,115 @@ func merge(rep, sub *vh.Report) {
 	}
 }
 
+func inPlaceMulOK(im *hg.Impl, rng *vh.Rng, rep *vh.Report) bool {
+	ok := true
+	for k := 0; k < 3; k++ {
+		s := new(big.Int).Add(rng.BigBelow(new(big.Int).Sub(im.Q, big.NewInt(3))), big.NewInt(2))
+		if k == 0 {
+			s = big.NewInt(8) // the cofactor-sized multiplier Pick uses
+		}
+		pan, msg := vh.Try(func() {
+			want := hg.Enc(im.NewPoint().Mul(im.NewScalar(s), im.Gen()))
+			p := im.Gen()
+			ret := p.Mul(im.NewScalar(s), p)
+			if hg.Enc(p) != want || hg.Enc(ret) != want {
+				ok = false
+				rep.Fail(im.Name+".Mul/aliased-differs[r=b]", "result differs from the one computed on fresh unaliased copies (pre-flight on the generator)",
+					map[string]interface{}{"impl": im.Name, "scalar": s.String(), "fresh_result": vh.Hex([]byte(want)), "after": vh.Hex([]byte(hg.Enc(p)))})
+			}
+		})
+		if pan {
+			ok = false
+			rep.Fail(im.Name+".Mul/panic[r=b]", msg, nil)
+		}
+	}
+	return ok
+}
+
 func runImpl(im *hg.Impl, rng *vh.Rng, rep *vh.Report, itemsp *[]string, id, draws, progs int, search bool) int {
 	items := *itemsp
 	defer func() { *itemsp = items }()
 	{
+		// pre-flight: Pick / Embed multiply by the cofactor in place and retry while the result is the
+		// identity, so a broken in-place Mul makes them loop for ever; find that out first (on the
+		// generator, no Pick involved), report it, and leave Pick / Embed out for this implementation
+		// so that the rest of the matrix and the correspondence still run
+		if !inPlaceMulOK(im, rng, rep) {
+			cp := *im
+			cp.HasPick, cp.HasEmbed = false, false
+			im = &cp
+		}
 		r := newRunner(im, rng, rep)
 		d, p := draws, progs
-		if im.Slow && !search {
+		if (im.Slow || im.Alt) && !search {
 			d, p = (draws+1)/2, (progs+1)/2
 		}
 		r.cloneIndependence()
+		// a variable that received a value from the group itself (Base, Null, Mul by the base) or a
+		// constant scalar is re-used as the receiver of a later write; then the group's values are
+		// observed again (by the constants oracle after every call, and by Base / Mul(s,nil) calls in
+		// the program for the model): catches receivers that share storage with group constants
+		type kw struct{ k, w, alias int }
+		var reuse []kw
+		for _, k := range []int{mBase, mNull, mMulBase} {
+			for _, w := range []int{mNull, mBase, mNeg, mAdd, mSub, mSet, mMul, mMulBase, mPick, mEmbed} {
+				reuse = append(reuse, kw{k, w, 0})
+			}
+			reuse = append(reuse, kw{k, mNeg, 1}, kw{k, mAdd, 1}, kw{k, mMul, 1})
+		}
+		for _, k := range []int{sOne, sZero, sSetInt} {
+			for _, w := range []int{sZero, sOne, sNeg, sAdd, sMul, sSetInt, sSet, sPick, sSetBytes} {
+				reuse = append(reuse, kw{k, w, 0})
+			}
+		}
+		nre := len(reuse)
+		if (im.Slow || im.Alt) && !search {
+			nre = 12
+			for i := len(reuse) - 1; i > 0; i-- {
+				j := r.rng.Intn(i + 1)
+				reuse[i], reuse[j] = reuse[j], reuse[i]
+			}
+		}
+		for _, x := range reuse[:nre] {
+			if !r.supported(x.k) || !r.supported(x.w) {
+				continue
+			}
+			x := x
+			id++
+			r.runProgram(id, func(i int) *call {
+				operands := []int{0, 1, 2} // receiver 0, operands 1, 2 (distinct)
+				if x.alias == 1 {
+					operands = []int{0, 0, 1}
+					if x.w == mMul {
+						operands = []int{0, 0, 0}
+					}
+				} else if x.w == mMul {
+					operands = []int{0, 0, 1}
+				}
+				switch i {
+				case 0:
+					return &call{m: x.k, env: r.cellsFor(x.k, []int{0, 0, 0}[:arity(x.k)])}
+				case 1:
+					return &call{m: x.w, env: r.cellsFor(x.w, operands[:arity(x.w)])}
+				case 2:
+					if x.k >= 20 {
+						return &call{m: sOne, env: r.cellsFor(sOne, []int{2})}
+					}
+					return &call{m: mBase, env: r.cellsFor(mBase, []int{3})}
+				case 3:
+					if x.k >= 20 {
+						return &call{m: sSetInt, env: r.cellsFor(sSetInt, []int{1})}
+					}
+					return &call{m: mMulBase, env: r.cellsFor(mMulBase, []int{2, 1})}
+				case 4:
+					if x.k >= 20 {
+						return nil
+					}
+					return &call{m: mNull, env: r.cellsFor(mNull, []int{3})}
+				}
+				return nil
+			}, &items)
+		}
 		for _, m := range append(append([]int{}, pointMethods...), scalarMethods...) {
 			if !r.supported(m) {
 				continue
@@ -795,7 +986,7 @@ func runImpl(im *hg.Impl, rng *vh.Rng, rep *vh.Report, itemsp *[]string, id, dra
 func main() {
 	o := vh.ParseFlags()
 	rep := vh.NewReport("C05", o.Seed, o.Tier)
-	rep.Rule = "per implementation: every mutating method x every aliasing pattern of receiver/operands x operand draws (single-call programs) + random programs of 6-12 calls over 4 point and 3 scalar variables; oracles at every call: receiver = result, other variables unchanged, result = result on fresh copies; Clone/Set independence under every mutator; all observed values compared with the Coq transcriptions"
+	rep.Rule = "per implementation: every mutating method x every aliasing pattern of receiver/operands x operand draws (single-call programs) + random programs of 6-12 calls over 4 point and 3 scalar variables; constant-reuse programs (Base/Null/Mul-by-base or a constant scalar, then a later write to the same variable, then the group values again); every implementation also on its opt-in paths (AllowVarTime, full-group curves, caller DST); oracles at every call: receiver = result, other variables unchanged, result = result on fresh copies, group constants and objects created at start-up unchanged; Clone/Set independence under every mutator; all observed values compared with the Coq transcriptions"
 	rng := vh.NewRng(o.Seed)
 	var items []string
 	id := 0
@@ -815,6 +1006,7 @@ func main() {
 		subID := id
 		imRng := rng.Fork()
 		done := make(chan struct{})
+		t0 := time.Now()
 		go func() {
 			defer close(done)
 			if pan, msg := vh.Try(func() { subID = runImpl(im, imRng, sub, &subItems, subID, draws, progs, o.Search) }); pan {
@@ -827,6 +1019,9 @@ func main() {
 		}
 		select {
 		case <-done:
+			if os.Getenv("C05_TIMING") != "" {
+				fmt.Fprintf(os.Stderr, "%-32s %6d ms %5d calls\n", im.Name, time.Since(t0).Milliseconds(), sub.Evaluations)
+			}
 			id = subID
 			items = append(items, subItems...)
 			merge(rep, sub)
